@@ -97,6 +97,21 @@ APok(k, s, mr, yk, pert) ==
                 expect |-> [finalize |-> f.r.t, res |-> r.t, err |-> r.e]]
   /\ phase' = "judged" /\ UNCHANGED <<ses, clock>>
 
+\* a negative design fact, kept as an action so that it stays true of the code: a commitment (u, x) answered for
+\* two different challenges reveals the signature - v1 - v2 = (y2 - y1) sig - so a ProofCommitmentSecret is
+\* one-time.  The extractor is the environment's; the model says its output IS the signature.
+AReuse(k, s, mr) ==
+  /\ phase = "idle"
+  /\ LET pk == PkOf(k)   m == DenMsg(mr)
+         sig == Sign(SkOf(k), s, m).v
+         u == Commit(s, pk, m)
+         f1 == Finalize(u, PAtom("x"), PConst(3), sig)
+         f2 == Finalize(u, PAtom("x"), PConst(5), sig)
+         ext == GScale(PRat(<<1, 2>>), GAdd(f1.v, GNeg(f2.v))) IN       \* (v1 - v2) / (y2 - y1)
+       last' = [act |-> "PokReuse", k |-> k, scheme |-> s, msg |-> mr, y1 |-> 3, y2 |-> 5, pert |-> "none",
+                expect |-> [res |-> "Ok", extracted |-> (IsOk(f1.r) /\ IsOk(f2.r) /\ ext = sig)]]
+  /\ phase' = "judged" /\ UNCHANGED <<ses, clock>>
+
 \* timestamp variant: generation stamps the clock; Tick; verification with a timeout
 AGenerateTs(k, s, mr) ==
   /\ phase = "idle"
@@ -132,6 +147,7 @@ Delays == {0} \cup UNION {{t - 1, t, t + 1, 100 * t + 7} : t \in Taus \ {-1, 0}}
 
 Next ==
   \/ (phase = "idle" /\ \E k \in NZKeys, s \in Schemes, mr \in MsgRs, yk \in YKinds, pert \in Perts : APok(k, s, mr, yk, pert))
+  \/ (phase = "idle" /\ \E k \in NZKeys, s \in Schemes, mr \in MsgRs : AReuse(k, s, mr))
   \/ (phase = "idle" /\ \E k \in NZKeys, s \in Schemes, mr \in MsgRs : AGenerateTs(k, s, mr))
   \/ (phase = "stamped" /\ \E d \in Delays \ {0} : ATick(d))
   \/ (phase = "stamped" /\ \E pert \in TsPerts, tau \in Taus : AVerifyTs(pert, tau))
@@ -150,6 +166,8 @@ Bound ==
   /\ (Judged("Pok") /\ last.pert # "none") => last.expect.res = "Err"
   /\ (Judged("PokTs") /\ last.pert # "none") => last.expect.res = "Err"
 \* rejected once the timeout has elapsed
+\* one commitment, two challenges: the signature is extractable (the commitment secret is one-time)
+ReuseExtracts == Judged("PokReuse") => last.expect.extracted
 TimeBound == (Judged("PokTs") /\ last.tau >= 0 /\ last.delay > last.tau) => last.expect.res = "Err"
 \* C04: zero challenge, identity commitment / proof / key
 NoIdentity ==
